@@ -80,6 +80,9 @@ func Replay(w *vt.W, path string, stride, phase int) (n int) {
 				es = guardErr(func() error { c.(interface{ RevComp() }).RevComp(); return nil })
 			case "reverse":
 				es = guardErr(func() error { c.(interface{ Reverse() }).Reverse(); return nil })
+			case "rowrevcomp", "rowreverse":
+				ev["i"] = e.I
+				es = guardErr(func() error { rowMirror(c, e.I-1, e.Op == "rowrevcomp"); return nil })
 			case "delete":
 				ev["i"] = e.I
 				es = guardErr(func() error { deleteRow(c, e.I-1); return nil })
